@@ -1077,6 +1077,49 @@ VARIANTS = [
         "            lead_ws = pre_fix or ws_pre\n            trail_ws = post_fix or ws_post\n            fixed = tag_pre + lead_ws + inner + trail_ws + tag_post\n",
         "QUIET", None, "the refactor of seeded C17-8 done right",
     ),
+    # behaviour-preserving refactors: must stay quiet (R10j sweep)
+    Variant(
+        "quiet-jj01-tag-rebuilt-with-an-fstring", "src/sqlfluff/rules/jinja/JJ01.py",
+        "            fixed = (\n                tag_pre + (pre_fix or ws_pre) + inner + (post_fix or ws_post) + tag_post\n            )\n",
+        '            fixed = f"{tag_pre}{pre_fix or ws_pre}{inner}{post_fix or ws_post}{tag_post}"\n',
+        "QUIET", None, "R10j: the same five strings put together by an f-string",
+    ),
+    Variant(
+        "quiet-jj01-tag-rebuilt-with-join", "src/sqlfluff/rules/jinja/JJ01.py",
+        "            fixed = (\n                tag_pre + (pre_fix or ws_pre) + inner + (post_fix or ws_post) + tag_post\n            )\n",
+        '            pieces = [tag_pre, pre_fix or ws_pre, inner, post_fix or ws_post, tag_post]\n            fixed = "".join(pieces)\n',
+        "QUIET", None, "R10j: the same five strings through ''.join of a list held in a local",
+    ),
+    Variant(
+        "quiet-jj01-ends-kept-whole-and-indexed", "src/sqlfluff/rules/jinja/JJ01.py",
+        "            tag_pre, ws_pre, inner, ws_post, tag_post = self._get_whitespace_ends(\n                stripped\n            )\n",
+        "            ends = self._get_whitespace_ends(stripped)\n            tag_pre, ws_pre, inner = ends[0], ends[1], ends[2]\n            ws_post = ends[3]\n            tag_post = ends[4]\n",
+        "QUIET", None, "R10j: the tuple kept whole and read by index",
+    ),
+    Variant(
+        "quiet-jj01-source-fix-by-keyword", "src/sqlfluff/rules/jinja/JJ01.py",
+        "                SourceFix(\n                    fixed,\n                    slice(\n                        src_idx + position,\n                        src_idx + position + len(stripped),\n                    ),\n",
+        "                SourceFix(\n                    edit=fixed,\n                    source_slice=slice(\n                        src_idx + position,\n                        src_idx + position + len(stripped),\n                    ),\n                    templated_slice=\n",
+        "QUIET", None, "R10j: the dataclass fields by keyword",
+    ),
+    Variant(
+        "quiet-jj01-fallback-as-conditional-expression", "src/sqlfluff/rules/jinja/JJ01.py",
+        "                tag_pre + (pre_fix or ws_pre) + inner + (post_fix or ws_post) + tag_post\n",
+        "                tag_pre + (ws_pre if pre_fix is None else pre_fix) + inner + (post_fix if post_fix is not None else ws_post) + tag_post\n",
+        "QUIET", None, "R10j: the fixes are None or ' ', so `fix or ws` is `ws if fix is None else fix`",
+    ),
+    Variant(
+        "quiet-jj01-whitespace-replaced-on-a-copy", "src/sqlfluff/rules/jinja/JJ01.py",
+        "            fixed = (\n                tag_pre + (pre_fix or ws_pre) + inner + (post_fix or ws_post) + tag_post\n            )\n",
+        "            lead_ws = ws_pre\n            if pre_fix:\n                lead_ws = pre_fix\n            trail_ws = ws_post\n            if post_fix is not None:\n                trail_ws = post_fix\n            fixed = tag_pre + lead_ws + inner + trail_ws + tag_post\n",
+        "QUIET", None, "R10j: `fix or ws` as a default overwritten under `if fix:`",
+    ),
+    Variant(
+        "quiet-jj01-tag-rebuilt-by-a-nested-helper", "src/sqlfluff/rules/jinja/JJ01.py",
+        "            fixed = (\n                tag_pre + (pre_fix or ws_pre) + inner + (post_fix or ws_post) + tag_post\n            )\n",
+        "            def _rebuild(lead, trail):\n                return tag_pre + (lead or ws_pre) + inner + (trail or ws_post) + tag_post\n\n            fixed = _rebuild(pre_fix, post_fix)\n",
+        "QUIET", None, "R10j: the concatenation in a nested function closing over the five parts",
+    ),
     Variant(
         "jj01-closing-plus-is-not-a-modifier", "src/sqlfluff/rules/jinja/JJ01.py",
         "        if main and main[-1] in modifier_chars:\n",
